@@ -69,7 +69,7 @@ def evaluate(ctx, name, exprs, meta):
 
 def end_to_end(ctx, n):
     """rejected definitions make calibration and the variance estimators raise AssertionError before computing"""
-    from dtscalibration.variance_stokes import variance_stokes_constant
+    from dtscalibration.variance_stokes import variance_stokes_constant, variance_stokes_exponential, variance_stokes_linear
     from vlib.gen_fibre import small_single
 
     rng = ctx.rng("e2e")
@@ -77,7 +77,18 @@ def end_to_end(ctx, n):
         ds, _ = small_single(rng)
         ds = ds.assign(b0=ds['cold'], b1=ds['warm'])
         x = ds.x.values
-        secs = secgen.random_layout(rng, x, max_stretch=3, p_unknown=0.15, p_valid=0.3)
+        if k % 3 == 1:    # two stretches touching exactly on a grid point (same or different baths): a location used twice
+            a, b_, c = sorted(rng.choice(np.arange(len(x)), size=3, replace=False).tolist())
+            s1, s2 = (float(x[a]), float(x[b_])), (float(x[b_]), float(x[c]))
+            secs = [(0, [s1, s2])] if rng.random() < 0.5 else [(0, [s1]), (1, [s2])]
+        elif k % 3 == 2:  # bounds overlap, selected locations do not: usable
+            a, b_, c = sorted(rng.choice(np.arange(len(x) - 1), size=3, replace=False).tolist())
+            dx = float(x[b_ + 1] - x[b_])
+            secs = [(0, [(float(x[a]), float(x[b_]) + 0.4 * dx)]), (1, [(float(x[b_]) + 0.3 * dx, float(x[c + 1]) if c + 1 < len(x) else float(x[c]))])]
+            if b_ + 1 > c:
+                secs = secgen.random_layout(rng, x, max_stretch=3, p_unknown=0.15, p_valid=0.3)
+        else:
+            secs = secgen.random_layout(rng, x, max_stretch=3, p_unknown=0.15, p_valid=0.3)
         secs = [(b, l) for b, l in secs if b < 2 or b == 3]
         if not secs:
             continue
@@ -92,6 +103,8 @@ def end_to_end(ctx, n):
         for nm, call, want in (
             ("calibrate_single_ended", lambda: ds.dts.calibrate_single_ended(sections=pysec, st_var=1.0, ast_var=1.0), usable),
             ("variance_stokes_constant", lambda: variance_stokes_constant(ds["st"], pysec, ds["userAcquisitionTimeFW"], reshape_residuals=False), usable_est),
+            ("variance_stokes_exponential", lambda: variance_stokes_exponential(ds["st"], pysec, ds["userAcquisitionTimeFW"], reshape_residuals=False), usable_est),
+            ("variance_stokes_linear", lambda: variance_stokes_linear(ds["st"], pysec, ds["userAcquisitionTimeFW"], nbin=2), usable_est),
         ):
             try:
                 call()
@@ -121,7 +134,7 @@ def end_to_end(ctx, n):
 def run(ctx):
     ctx.extra["rule"] = ("exhaustive: every placement of 1 and 2 stretches (endpoints on, between and outside grid points, reversed included) on a 3-point "
                          "grid (quick) / 1..2 on 4 points and 3 on 2 points (thorough) x same/different bath; seeded random layouts of 1-4 stretches on grids of 3-10 "
-                         "locations (regular and irregular), 5% unknown keys; end-to-end: calibrate_single_ended and variance_stokes_constant on seeded layouts. "
+                         "locations (regular and irregular), 5% unknown keys; end-to-end: calibrate_single_ended, the three variance estimators on seeded layouts. "
                          "distinct = distinct (grid, layout); all are non-trivial (at least one stretch).")
     ctx.trusted += ["harness vlib/props/c16.py, vlib/secgen.py", "xarray label selection (.sel) is modelled by Model/Sections.sel"]
     ctx.assumptions += ["x strictly increasing", "np.argsort on <=16 start values is stable (insertion sort)"]
